@@ -37,7 +37,7 @@ PROPS["C08"] = {
     "harness": {"kind": "overlay", "pkg": "pkg/evmclient", "pkgname": "evmclient",
                 "files": ["evmclient/stub_test.go", "evmclient/c08_test.go"], "test": "TestVerifC08"},
     "level_text": "Theorem by induction over arbitrary operation lists (sends with any pending answer or failure and any failing call, monitor updates, restarts): every successfully submitted nonce n satisfies max(prev+1, own pending answer) <= n <= max(prev+1, largest pending answer since the previous success) and n <= highest confirmed nonce reported + 1024 (literal; the window constant is regenerated from the source). Corollaries proved on event lists: strictly increasing within a lifetime, consecutive when nothing failed/intervened, a failed request consumes no nonce, restart monotonicity under the (necessary, witnessed) fresh-answer hypothesis. The model is tied to the real EvmClient.Send + real watch loop over a scripted chain node with in-package access.",
-    "level_note": "Trusted: Lean kernel; differential harness; atomicity of Send (whole body under c.mtx) and of the monitor's atomic word are modelling assumptions, exercised under -race in the thorough tier. Restart: the client persists nothing, so cross-restart monotonicity is proved under the stated environment hypothesis.",
+    "level_note": "Trusted: Lean kernel; differential harness; atomicity of Send (whole body under c.mtx) and of the monitor's atomic word are modelling assumptions; the first is exercised on every run by sends overlapping in time (the first is held inside its gas-estimate call while the second arrives), both under -race in the thorough tier. Restart: the client persists nothing, so cross-restart monotonicity is proved under the stated environment hypothesis.",
     "nontrivial_rule": "distinct (tag, model event list) pairs; a sequence is non-trivial when it contains at least one send",
     "assumptions": ["Send is serialised by the client's mutex (one atomic step per request)",
                     "after a restart the chain node's first pending answer exceeds every nonce it accepted from this account (needed only for the cross-restart corollary)"],
@@ -55,7 +55,7 @@ PROPS["C17"] = {
 PROPS["C11"] = {
     "harness": {"kind": "cmd", "cmd": "c11"},
     "extra_harnesses": [{"cmd": "nodewire", "tag": "nodewire"}],
-    "level_text": "Theorems: the check answers yes iff both reads were obtained and decoded and amount >= minimum (any call or decoding failure yields no; a return shorter than 32 bytes is a failure); for all values < 2^256 the decoded words are the on-chain numbers (big-endian round trip); stake/prepay hands exactly (registry address, amount as value, 4-byte selector) to the evm client and reports success iff send succeeded and the receipt has status 1. Tied to both real wrappers over the repository's mock evm client: exhaustive fault placement x return shapes {error, empty, 31, 32, 33, 64 bytes} x boundary value pairs up to 2^256-1 x every receipt outcome.",
+    "level_text": "Theorems: the check answers yes iff both reads were obtained and decoded and amount >= minimum (any call or decoding failure yields no; a return shorter than 32 bytes is a failure); for all values < 2^256 the decoded words are the on-chain numbers (big-endian round trip); stake/prepay hands exactly (registry address, amount as value, 4-byte selector) to the evm client and reports success iff send succeeded and the receipt has status 1. Tied to both real wrappers over the repository's mock evm client: exhaustive fault placement x return shapes {error, empty, 31, 32, 33, 64 bytes} x boundary value pairs up to 2^256-1 x every receipt outcome. Whole node (node.NewNode, see C07): stake is read at the configured provider registry, allowance at the configured bidder registry, stake/prepay pay those contracts the requested value and report the balance afterwards; any mis-wiring of the reads yields no commitment (theorem) and is observed end to end.",
     "level_note": "Trusted: Lean kernel; differential harness; go-ethereum abi.Pack/Unpack (modelled as: <32 bytes error, else first word big-endian; compared on every case); contracts-abi metadata for selectors.",
     "nontrivial_rule": "distinct (tag, which registry, model observation) cells",
     "assumptions": ["the evm client's WaitForReceipt returns either an error or the transaction's receipt"],
@@ -170,7 +170,7 @@ PROPS["C01"] = {
 PROPS["C07"] = {
     "harness": {"kind": "cmd", "cmd": "handlebid"},
     "extra_harnesses": [{"cmd": "nodewire", "tag": "nodewire"}],
-    "level_text": "Theorems: decode(encode(args)) = args for the 7-argument storeCommitment call (unbounded string/bytes, all 64-bit numbers; selector + head/tail layout); for every bid in the validated domain the calldata built from the commitment decodes to exactly its amount, block number, tx-hash string, decay window, bid signature and commitment signature (the 64-bit conversions are the identity there); in the handler model a commitment is written only after a successful submission and a failed submission yields an error and no commitment. Tied to the real handleBid + real preconf-contract wrapper: captured calldata is decoded by the Lean decoder and compared field by field with the commitment actually written, compared byte for byte with the Lean encoder's output (i.e. with go-ethereum's abi.Pack), destination = configured address, order of Send and WriteMsg; amounts up to 2^64-1 incl. [2^63, 2^64).",
+    "level_text": "Theorems: decode(encode(args)) = args for the 7-argument storeCommitment call (unbounded string/bytes, all 64-bit numbers; selector + head/tail layout); for every bid in the validated domain the calldata built from the commitment decodes to exactly its amount, block number, tx-hash string, decay window, bid signature and commitment signature (the 64-bit conversions are the identity there); in the handler model a commitment is written only after a successful submission and a failed submission yields an error and no commitment. Tied to the real handleBid + real preconf-contract wrapper: captured calldata is decoded by the Lean decoder and compared field by field with the commitment actually written, compared byte for byte with the Lean encoder's output (i.e. with go-ethereum's abi.Pack), destination = configured address, order of Send and WriteMsg; amounts up to 2^64-1 incl. [2^63, 2^64), leading-zero spellings, mixed-case hashes, the same bid retried through the same instances after failed submissions. Whole node: two real nodes built by node.NewNode (bidder + provider, three distinct configured contracts) against an in-process JSON-RPC chain node, driven through their gRPC APIs; the model of the wiring says where every read and transaction must go and when a commitment may exist.",
     "level_note": "Trusted: Lean kernel; harness; go-ethereum abi.Pack (compared byte for byte on every accepting case); contracts-abi metadata for the selector; big.Int.Int64 on [2^63,2^64) returns the low 64 bits in the pinned Go implementation (documented as undefined; compared differentially).",
     "nontrivial_rule": "distinct accepted bids (tag, calldata length class); every case is a fresh random bid",
     "class_of": lambda c, r: "%s|%d" % (c["in"]["tag"], len((c["in"].get("bid") or {"txhash": ""})["txhash"])),
@@ -236,11 +236,11 @@ PROPS["C09"] = {
     "harness": {"kind": "overlay", "pkg": "pkg/evmclient", "pkgname": "evmclient",
                 "files": ["evmclient/stub_test.go", "evmclient/c09_test.go"], "test": "TestVerifC09", "race": True},
     "agree": _c09_agree,
-    "level_text": "Theorems over arbitrary interleavings of the atomic steps (submission, watch registration, per-element batch replies for any snapshot, shutdown, drain, client observation): an invariant (a waiter listed in a row is allocated, unanswered and belongs to that row only; delivered waiter ids are duplicate-free) holds in every reachable state, hence no waiter ever has two outcomes and the monitor never sends on a closed channel (no crash); a receipt goes only to waiters of that very hash; 'cancelled' only for a waiter whose nonce is below the confirmed nonce of the snapshot that found no receipt for its hash; 'closed' only after shutdown began; a reply resolves its whole row in that step; after the drain nobody is left waiting and new waiters are refused; the pending list is a subset of what was submitted and resolved transactions leave it once observed. Tied to the real txmonitor + EvmClient with the receipt batch call under a gate (watch/round/close forced in all orders incl. reply in flight during Close and watch during an in-flight reply), over both transports: function mock and a real in-process go-ethereum JSON-RPC server where a missing receipt is JSON null; the harness logs the realised atomic steps and the model replays them.",
+    "level_text": "Theorems over arbitrary interleavings of the atomic steps (submission, watch registration, per-element batch replies for any snapshot, shutdown, drain, client observation): an invariant (a waiter listed in a row is allocated, unanswered and belongs to that row only; delivered waiter ids are duplicate-free) holds in every reachable state, hence no waiter ever has two outcomes and the monitor never sends on a closed channel (no crash); a receipt goes only to waiters of that very hash; 'cancelled' only for a waiter whose nonce is below the confirmed nonce of the snapshot that found no receipt for its hash; 'closed' only after shutdown began; a reply resolves its whole row in that step; after the drain nobody is left waiting and new waiters are refused; the pending list is a subset of what was submitted and resolved transactions leave it once observed. Tied to the real txmonitor + EvmClient with the receipt batch call under a gate (watch/round/close forced in all orders incl. reply in flight during Close, watch during an in-flight reply, a watcher that has read the shutdown flag and is then held while Close runs, a waiter registering while the outcome of that very transaction is being handed out, rounds larger than one receipt batch, CancelTx with an accepted and with a rejected replacement), over both transports: function mock and a real in-process go-ethereum JSON-RPC server where a missing receipt is JSON null; the harness logs the realised atomic steps and the model replays them.",
     "level_note": "Trusted: Lean kernel; harness (trace validation); the 500 ms ticker and the 10 s Close timeout are real time; liveness is proved as 'a reply resolves its row' / 'the drain resolves everybody', not under the Go scheduler. A case that kills the test process is recognised by its marker line.",
     "nontrivial_rule": "distinct (transport, realised step list) pairs; non-trivial = at least one reply or drain reaching a registered waiter",
     "class_of": lambda c, r: "%s|%s" % (c["in"]["transport"], json.dumps(c["in"]["steps"])),
-    "assumptions": ["watchTx / notify / drain / getOlderTxns are atomic (txmonitor.mtx)", "the chain node's answer for a hash is what the reply step carries"],
+    "assumptions": ["watchTx / notify / drain / getOlderTxns are atomic (txmonitor.mtx) - exercised by forced schedules inside each of them", "the chain node's answer for a hash is what the reply step carries"],
 }
 
 PROPS["C20"] = {
